@@ -572,7 +572,14 @@ Definition acquire_p_finish (s : st) (t l f : nat) (had : bool) (inp : reply) : 
                                         <| lwt := filter (fun pr => negb (Nat.eqb (fst pr) f)) (lwt lk) |>)
            | None => s
            end in
-  let s := if llocked (getl s l) then s else wake_up_first_p s l in
+  (* a waiter has left a lock that stays locked: its owner may have become less urgent and
+     re-keys itself (owning.propagate_priority(self), repair F16) *)
+  let s := if llocked (getl s l)
+           then match lowner (getl s l) with
+                | Some o => if Nat.eqb o t then s else propagate_priority s o
+                | None => s
+                end
+           else wake_up_first_p s l in
   (* _waiting_on.__exit__ *)
   let s := if had then sett s t (gett s t <| twaiting := None |>) else s in
   (s, r).
